@@ -435,6 +435,16 @@ Definition hang_due (i : nat) (w : wk) : option Z :=
   | _, _, _ => None
   end.
 
+(* "no thread can take a step": every event other than the environment's (clock tick, spurious wake-up, signal arrival)
+   is refused.  The candidates are finitely many: the index-free events and, per slot, the events that name it. *)
+Definition cands (s : gst) : list ev :=
+  [ELockD; EWaitD; EWokenD; EUnlockD; EExit; EWdWake; ESigTake; ESigMark; ELock1S; EUnlock1S; EExitS; ELock0S; EUnlock0S; ERaise] ++
+  flat_map (fun i => [ECreate i; EStart i; ELock1 i; EUnlock1 i; EConnBegin i; EConnOk i; EConnRefused i; EConnIntr i; EPollIntr i;
+                      EReport i; ERSigW i; EDestroy i; ELock0 i; ESignal i; EUnlock0 i; EWdKill i; ERSigS i])
+           (seq 0 (length (ws s))).
+Definition blockedb (s : gst) : bool :=
+  forallb (fun e => match step s e with None => true | Some _ => false end) (cands s).
+
 (* observables *)
 Definition wpc_inflight (p : wpc) : bool :=
   match p with PInConn | PWantB | PHoldB | PPoll | PTerm | PWantC | PHoldC | PFlush => true | _ => false end.
